@@ -305,17 +305,18 @@ Section Keys.
       exists g. split; [exact NE|]. eapply sdoms_nth, NE.
   Qed.
   Lemma verify_output_rel domain k o o' s : Forall2 geq domain (map sgen ss) -> out_rel o o' s ->
-    exists c, verify_output domain k o' = OVal c /\ geq c (scommit (fst s)).
+    exists c, verify_output_step domain k o' = OVal (Some c) /\ geq c (scommit (fst s)).
   Proof.
     intros D (a & v & A & V & SA & SV & R). destruct (snd s) as [esk|].
     - destruct R as (M & Zabf & rk & NK & W). destruct (wts_inv _ _ _ _ _ W) as (i & bf & F & -> & RV).
-      exists (scommit (fst s)). split; [|reflexivity]. now apply verify_output_wts.
+      exists (scommit (fst s)). split; [|reflexivity]. apply step_live; [eapply skipped_conf; reflexivity|]. now apply verify_output_wts.
     - destruct R as (M & -> & -> & RV). exists (commit v (gH a) 0). split; [|apply scommit_iss].
+      apply step_live; [apply (skipped_nonzero o v V); lia|].
       unfold verify_output, get_value_commit, get_asset_gen. rewrite V, A.
       destruct (Z.eqb_spec v 0) as [Z0|_]; [lia|]. cbn [obind map_err]. rewrite pedersen_unblinded_H by exact RV. reflexivity.
   Qed.
   Lemma verify_outputs_ok domain outs news osecs : Forall2 geq domain (map sgen ss) -> Forall3 out_rel outs news osecs ->
-    forall k, exists coms, verify_outputs domain news k = OVal coms /\ Forall2 geq coms (map scommit (map fst osecs)).
+    forall k, exists coms, verify_outputs domain news k = OVal (map Some coms) /\ Forall2 geq coms (map scommit (map fst osecs)).
   Proof.
     intros D F. induction F as [|o o' s lo lo' ls R F IH]; intro k; cbn [verify_outputs map].
     - exists []. split; constructor.
@@ -393,7 +394,7 @@ Section C04.
     unfold verify_tx_amt_proofs. cbn [t_in t_out]. rewrite (opens_length _ _ _ OP), Nat.eqb_refl. cbn [negb].
     destruct (verify_inputs_ok _ _ _ OP 0%nat) as (dom & com & -> & D & C). cbn [obind].
     destruct (verify_outputs_ok pubk ecdh ss dom _ _ _ D F3 0%nat) as (coms & -> & CS). cbn [obind].
-    replace (verify_commitments_sum_to_equal com coms) with true; [reflexivity|]. symmetry.
+    rewrite out_commits_somes. replace (verify_commitments_sum_to_equal com coms) with true; [reflexivity|]. symmetry.
     apply geqb_spec. intro k. rewrite (coeff_gsum_geq com ss k C), (coeff_gsum_geq coms (map fst osecs) k CS).
     destruct (bkey_cases k) as [->|(b & ->)].
     - rewrite !zsum_G_total. exact GB.
@@ -475,7 +476,7 @@ Section C04.
   Qed.
 End C04.
 
-(* ================================================================== the last-output identity and the no-marked panic *)
+(* ================================================================== the last-output identity; no marked output = the documented error *)
 Lemma last_balances_scalar ins outs v abf :
   zsum (map vb ins) = zsum (map vb (outs ++ [(v, abf, last_vbf v abf ins outs)])).
 Proof.
@@ -497,9 +498,9 @@ Qed.
 Section NoMarked.
   Variable pubk : Z -> Z.
   Variable ecdh : Z -> Z -> Z.
-  Theorem blind_none_marked_panics p rnd ss t :
+  Theorem blind_none_marked_error p rnd ss t :
     explicit_positive t -> existsb marked (t_out t) = false -> Forall in_zn rnd ->
-    blind pubk ecdh p rnd ss t = OPanic PNoLastOutput.
+    blind pubk ecdh p rnd ss t = OFail BTooFewBlindingOutputs.
   Proof.
     intros EP NM RZ. unfold blind.
     assert (AE : forallb (fun o => asset_is_explicit (o_asset o) && value_is_explicit (o_value o)) (t_out t) = true).
@@ -517,5 +518,25 @@ Section NoMarked.
     destruct (loop_phase pubk ecdh p ss 0%nat (t_out t) (mkBS [] [] None [] 0 rnd) 0%nat G) as (news & osecs & rnd' & -> & _);
       cbn [bs_num_blinded bs_rnd]; try (rewrite Z0); try (left; reflexivity); try lia; try assumption.
     reflexivity.
+  Qed.
+  (* without any hypothesis on amounts or randomness: no marked output never panics — the outcome is one of the two errors *)
+  Lemma loop_unmarked p ntb ss : forall outs st i,
+    forallb (fun o => asset_is_explicit (o_asset o) && value_is_explicit (o_value o)) outs = true -> existsb marked outs = false ->
+    exists st', blind_loop pubk ecdh p ntb ss st i outs = OVal st' /\ bs_last st' = bs_last st.
+  Proof.
+    induction outs as [|o outs IH]; intros st i AE NM; cbn [blind_loop]. - now exists st.
+    - cbn [forallb existsb] in AE, NM. apply andb_true_iff in AE as [AO AE]. apply orb_false_iff in NM as [MO NM].
+      unfold blind_step. rewrite marked_cond, MO. cbn [negb]. apply andb_true_iff in AO as [A V]. unfold explicit_asset, explicit_value.
+      destruct (o_asset o) as [|a|]; try discriminate. destruct (o_value o) as [|v|]; try discriminate. cbn [obind].
+      destruct (IH (mkBS (bs_outs st ++ [o]) (bs_secrets st ++ [mkSec a 0 v 0]) (bs_last st) (bs_blinds st) (bs_num_blinded st) (bs_rnd st)) (S i) AE NM) as (st' & R & L).
+      exists st'. cbn [obind]. split; [exact R|exact L].
+  Qed.
+  Theorem blind_none_marked_never_panics p rnd ss t : existsb marked (t_out t) = false ->
+    blind pubk ecdh p rnd ss t = OFail BTooFewBlindingOutputs \/ blind pubk ecdh p rnd ss t = OFail BMustHaveAllExplicitTxOuts.
+  Proof.
+    intro NM. unfold blind.
+    destruct (forallb (fun o => asset_is_explicit (o_asset o) && value_is_explicit (o_value o)) (t_out t)) eqn:AE; cbn [negb]; [left|now right].
+    destruct (loop_unmarked p (length (filter marked (t_out t))) ss (t_out t) (mkBS [] [] None [] 0 rnd) 0%nat AE NM) as (st' & -> & L).
+    cbn [obind]. rewrite L. reflexivity.
   Qed.
 End NoMarked.
